@@ -46,6 +46,8 @@ def run(ctx):
     c01.r11(ctx)
     c01.r12_units(ctx, 'R2.8')
     r29(ctx)
+    from . import c07 as _c07
+    _c07.r712(ctx, 'R2.10')
     r27(ctx)
     from . import callsigs as _cs
     from . import c11 as _c11
@@ -545,8 +547,12 @@ def r24(ctx):
             and c.args and const_value(c.args[0]) == 'ColumnMetaData']
     codec = norm(kwarg(cmdc[0], 'codec')) if cmdc else ''
     algo = [norm(n) for n in iter_child_stmts(post) if isinstance(n, ast.Assign) and norm(n.targets[0]) == 'algorithm']
-    ok = codec == 'getattr(parquet_thrift.CompressionCodec, algorithm.upper()) if algorithm else 0' and \
-        sorted(algo) == ["algorithm = compression", "algorithm = compression.get('type', None)"]
+    # the default codec of a dict without 'type' must be the one compress_data applies to the pages
+    cd = ctx.repo['compression'].func('compress_data')
+    dflt = [norm(c.args[1]) for c in ast.walk(cd) if isinstance(c, ast.Call) and norm(c.func) == 'compression.get' and len(c.args) == 2
+            and isinstance(c.args[0], ast.Constant) and c.args[0].value == 'type']
+    ok = codec == 'getattr(parquet_thrift.CompressionCodec, algorithm.upper()) if algorithm else 0' and len(dflt) == 1 and \
+        sorted(algo) == ["algorithm = compression", "algorithm = compression.get('type', %s)" % dflt[0]]
     ctx.ob('R2.4', 'writer.write_column:codec-from-same-compression-argument', ok,
            'codec=%s; algorithm from %s' % (codec, algo), m.loc(f))
     comp_calls = [norm(c) for c in ast.walk(loop) if isinstance(c, ast.Call) and callee(c) == 'compress_data']
